@@ -1,6 +1,7 @@
 package gen
 
 import (
+	"math"
 	"math/rand"
 
 	"verif/harness/internal/opb"
@@ -82,6 +83,29 @@ func genC09(r *rand.Rand, n int, emit func(string)) {
 		for t < 0 {
 			t = cands[r.Intn(len(cands))]
 		}
+		tu := uint64(t)
+		if r.Intn(8) == 0 {
+			// the ends of the ranges: signed bounds, an unsigned anchoring time, a sum that does not fit
+			const maxI = int64(math.MaxInt64)
+			k := int64(r.Intn(3))
+			switch r.Intn(5) {
+			case 0: // from at the top, default expiry beyond the int64 range
+				from, until = maxI-k*delta/2, 0
+			case 1: // negative from, anchoring time that would wrap to a negative int64
+				from, until = -1-k, pick(r, []int64{0, 5})
+			case 2: // both bounds at the top
+				from, until = maxI-1-k, maxI
+			case 3: // the lowest from there is
+				from, until = math.MinInt64+k, 0
+			default:
+				until = maxI - k
+			}
+			tu = pick(r, []uint64{uint64(maxI), uint64(maxI) - 1, uint64(maxI) + 1, math.MaxUint64, math.MaxUint64 - 1, 1 << 63,
+				uint64(maxI) - uint64(delta), uint64(maxI) - uint64(delta)/2, 0, 5, uint64(delta)})
+			if from > 0 && r.Intn(2) == 0 {
+				tu = uint64(from) + uint64(r.Int63n(2*delta+1)) // around from + delta, beyond 2^63 included
+			}
+		}
 
 		updKey, recKey := opb.NewKey(r, kt), opb.NewKey(r, opb.KeyType(r.Intn(int(opb.NumKeyTypes))))
 		nextUpd, nextRec := opb.NewKey(r, kt), opb.NewKey(r, kt)
@@ -110,10 +134,10 @@ func genC09(r *rand.Rand, n int, emit func(string)) {
 			req = opb.Canon(opb.DeactivateRequest(suffix, recKey.Reveal(code), jws))
 		}
 		body := M{
-			"cfg": cfg, "type": typ, "from": from, "until": until, "t": t, "next_uc": nextUC,
+			"cfg": cfg, "type": typ, "from": from, "until": until, "t": tu, "next_uc": nextUC,
 			"ops": []interface{}{
 				AnchoredLine("create", suffix, createReq, 0, 0, 0, "cr0", nil),
-				AnchoredLine(typ, suffix, req, uint64(t), 1, 0, "cr1", nil),
+				AnchoredLine(typ, suffix, req, tu, 1, 0, "cr1", nil),
 			},
 			"keytype": kt.String(),
 		}
